@@ -75,8 +75,8 @@ Proof. exact add_legacy_refuted_lemma. Qed.
 Print Assumptions add_legacy_refuted.
 
 (* the intended (Fixed) variant - fixes/C09_first_ordinate.patch - is pointwise also when the first
-   ordinates are not 0: operands that start at the same abscissa and end with ordinate 0 (partial: the
-   general statement under Spec.ends_compatible is not proved) *)
+   ordinates are not 0: operands that start at the same abscissa and end with ordinate 0 (partial; the
+   general statement under Spec.ends_compatible is add_first_ordinate_pointwise at the end of this file) *)
 Theorem add_first_ordinate_pointwise_partial : forall (ra rb : list pt) xa ya xb yb,
   let a := (xa, ya) :: ra in let b := (xb, yb) :: rb in
   incr a -> incr b -> xa == xb -> last_y a == 0 -> last_y b == 0 ->
@@ -254,3 +254,65 @@ Proof. cbv zeta. split; [|split; [|split]].
   - simpl. repeat split; auto; discriminate.
   - vm_compute. reflexivity.
   - vm_compute. reflexivity. Qed.
+
+(* ================= the exact sum on arbitrary critical-pair lists: coq/Proofs/LandArithEndsP.v ================= *)
+From Coq Require Import Qminmax.
+From Persim Require Proofs.LandArithEndsP.
+
+(* T1, general form of add_first_ordinate_pointwise_partial: for ANY two non-empty critical-pair lists with strictly
+   increasing abscissae (different first abscissae, non-zero first and last ordinates, single-point lists) whose ends are
+   compatible (Spec.ends_compatible: no non-zero end ordinate of one operand strictly inside the abscissa range of the
+   other) the repaired code's sum evaluates, has strictly increasing abscissae again, spans [min first_x, max last_x],
+   and is the pointwise sum of the two functions at EVERY t (pl_eval is 0 outside the range of its list, so this
+   includes the jumps at non-zero end ordinates).  Empty depths are excluded: the real code raises IndexError on them
+   (a[0][0] in union_crit_pairs) whereas the model evaluates ([] + b = b moved to first ordinate 0,
+   LandArithEndsP.add_empty_depth_model), so the model is not faithful there. *)
+Theorem add_first_ordinate_pointwise : forall a b : list pt,
+  a <> [] -> b <> [] -> incr a -> incr b -> ends_compatible a b ->
+  exists c, add_depth Fixed a b = Some c /\ c <> [] /\ incr c /\
+    first_x c == Qmin (first_x a) (first_x b) /\ last_x c == Qmax (last_x a) (last_x b) /\
+    forall t, pl_eval c t == pl_eval a t + pl_eval b t.
+Proof. exact LandArithEndsP.add_depth_fixed_ends. Qed.
+Print Assumptions add_first_ordinate_pointwise.
+
+(* T1: ends_compatible is the EXACT boundary, not a proof artefact: on non-empty lists with strictly increasing
+   abscissae the sum is pointwise at every t if and only if the ends are compatible (for every incompatible pair the
+   result - a continuous function between its first and last point - differs from the pointwise sum at some t) *)
+Theorem add_pointwise_iff_ends_compatible : forall a b : list pt, a <> [] -> b <> [] -> incr a -> incr b ->
+  ((exists c, add_depth Fixed a b = Some c /\ forall t, pl_eval c t == pl_eval a t + pl_eval b t)
+   <-> ends_compatible a b).
+Proof. exact LandArithEndsP.add_depth_fixed_ends_iff. Qed.
+Print Assumptions add_pointwise_iff_ends_compatible.
+
+(* the condition is decidable: boolean form *)
+Theorem ends_compatible_decidable : forall a b : list pt,
+  LandArithEndsP.ends_compatible_b a b = true <-> ends_compatible a b.
+Proof. exact LandArithEndsP.ends_compatible_b_spec. Qed.
+Print Assumptions ends_compatible_decidable.
+
+(* the sum of two non-empty increasing lists always evaluates (no fuel error), compatible ends or not *)
+Theorem add_first_ordinate_total : forall a b : list pt, a <> [] -> b <> [] -> incr a -> incr b ->
+  exists c, add_depth Fixed a b = Some c /\ c <> [] /\ incr c.
+Proof. exact LandArithEndsP.add_depth_fixed_total. Qed.
+Print Assumptions add_first_ordinate_total.
+
+(* boundary witnesses.  [[0,0],[2,2],[4,0]] + [[1,1],[3,0]]: the first ordinate 1 of b sits strictly inside the range of
+   a; model and real code return the continuous list [[0,0],[1,1],[2,1.5],[3,0],[4,-1]], which has 1 at t = 1 where the
+   operands have 1 + 1.  Such operands cannot come from diagrams (sweep_output_wf below: every depth starts and ends with
+   ordinate 0, and sums / differences / multiples of such lists do so again: add_pointwise) but the public constructor
+   PersLandscapeExact(critical_pairs=...) accepts any lists, so the real __add__ CAN be given them; no breakpoint list
+   with strictly increasing abscissae represents the pointwise sum then, so this is a limit of the representation, not
+   a defect of the code. *)
+Theorem add_ends_incompatible_refuted :
+  exists a b c t, a <> [] /\ b <> [] /\ incr a /\ incr b /\ LandArithEndsP.ends_compatible_b a b = false /\
+    add_depth Fixed a b = Some c /\ ~ pl_eval c t == pl_eval a t + pl_eval b t.
+Proof. exact LandArithEndsP.add_ends_incompatible_refuted_lemma. Qed.
+Print Assumptions add_ends_incompatible_refuted.
+
+(* non-vacuity of add_first_ordinate_pointwise: different first abscissae, non-zero first ordinate of the operand that
+   starts first, common last abscissa with a non-zero last ordinate *)
+Example ends_compatible_satisfiable :
+  let a := [(0, 1); (2, 3); (5, 0)] in let b := [(2, 0); (3, -(1)); (5, 4)] in
+  a <> [] /\ b <> [] /\ incr a /\ incr b /\ ends_compatible a b /\
+  add_depth Fixed a b = Some [(0, 1); (2, 6 # 2); (3, 6 # 6); (5, 144 # 36)].
+Proof. exact LandArithEndsP.ends_compatible_instance. Qed.
